@@ -35,6 +35,10 @@ ACTIVITIES = {
     "endmarker_raises": ("c = channel.gateway.newchannel()\nchannel.send(c)\n"
                          "def cb(item):\n    if item is None:\n        raise ValueError('callback fails on its endmarker')\n"
                          "c.setcallback(cb, endmarker=None)\nchannel.send('started')\nchannel.receive()\n"),
+    # the connection ends although the process lives on: all descriptors closed / replaced by another program
+    "fds_closed_alive": ("import os, time\nchannel.send('started')\ntime.sleep(0.3)\nos.closerange(0, 256)\nwhile True:\n"
+                         "    try:\n        time.sleep(0.05)\n    except KeyboardInterrupt:\n        pass\n"),
+    "execv_sleep": "import os, time\nchannel.send('started')\ntime.sleep(0.3)\nos.execv('/bin/sleep', ['sleep', '1000'])\n",
     "stopped": "channel.send('started')\nchannel.receive()\n",
     "killed": "channel.send('started')\nchannel.receive()\n",
 }
@@ -112,6 +116,8 @@ def main():
         elif act == "killed":
             os.kill(workers[g["id"]], signal.SIGKILL)
             time.sleep(0.1)
+    if any(g.get("activity") in ("fds_closed_alive", "execv_sleep") for g in case["gateways"]):
+        time.sleep(0.8)  # let those connections reach EOF
     emit(event="ready")
     action = case["action"]
     if action == "terminate":
